@@ -54,10 +54,6 @@ func ringDegScenario(rt ring.Type, logN int, ch rk.Chain, bound int) engine.Scen
 		c.Cover("ring", ringName(rt))
 		uni.Seed(c, name, cfg)
 		known := knownKS(pL, kp, level, isNTT)
-		if known != "" {
-			c.Skip(skipKnown)
-			return
-		}
 		sig := func(clause string) string {
 			if known != "" {
 				return known
@@ -178,10 +174,6 @@ func bridgeScenario(ch rk.Chain, bound int) engine.Scenario {
 		c.Cover("op", "DomainSwitcher."+dirName)
 		uni.Seed(c, name, cfg)
 		known := knownKS(pStd.Parameters, kp, level, true)
-		if known != "" {
-			c.Skip(skipKnown)
-			return
-		}
 		sig := func(clause string) string {
 			if known != "" {
 				return known
